@@ -1,9 +1,6 @@
 (* C13 - property theorems only; proofs live in Routing/RoutingProofs.v and
-   Routing/ClientPinned.v.  PINNED-CLIENT FORM: the full client statement is false of the
-   code translated from base_client.py (refuted below), so it stands as _refuted +
-   _except + the exact characterisation of the failing set; the full-strength form is
-   installed by `harness/props/c13.py --promote` once the client mirrors the server. *)
-From VT Require Import Routing.GenTrigger Routing.RoutingProofs Routing.ClientPinned Check.C13Check.
+   Routing/ClientFull.v.  FULL-STRENGTH FORM (client mirrors the server). *)
+From VT Require Import Routing.GenTrigger Routing.RoutingProofs Routing.ClientFull Check.C13Check.
 Open Scope N_scope.
 
 Theorem C13_server_event_resolution : forall r n ev ns args,
@@ -24,27 +21,6 @@ Theorem C13_client_namespace_resolution : forall r n ns args,
 Proof. exact client_namespace_resolution. Qed.
 Print Assumptions C13_client_namespace_resolution.
 
-Theorem C13_client_event_resolution_refuted :
-  exists r n ev ns args,
-    BaseClient__get_event_handler (mk_self r n) (PStr ev) (PStr ns) (PTuple args)
-    <> Ok (emb_result (resolve_event client_reserved r ev ns args)).
-Proof. exact client_event_resolution_refuted. Qed.
-Print Assumptions C13_client_event_resolution_refuted.
-
-Theorem C13_client_event_resolution_except : forall r n ev ns args,
-  skips_catchall_namespace client_reserved r ev ns = false ->
-  BaseClient__get_event_handler (mk_self r n) (PStr ev) (PStr ns) (PTuple args)
-  = Ok (emb_result (resolve_event client_reserved r ev ns args)).
-Proof. exact client_event_resolution_except. Qed.
-Print Assumptions C13_client_event_resolution_except.
-
-Theorem C13_client_event_violations_characterised : forall r n ev ns args,
-  skips_catchall_namespace client_reserved r ev ns = true ->
-  BaseClient__get_event_handler (mk_self r n) (PStr ev) (PStr ns) (PTuple args)
-  <> Ok (emb_result (resolve_event client_reserved r ev ns args)).
-Proof. exact client_event_violations_characterised. Qed.
-Print Assumptions C13_client_event_violations_characterised.
-
 Theorem C13_server_routing : forall r n ev ns args,
   server_trigger (mk_self r n) (PStr ev) (PStr ns) (PTuple args)
   = Ok (emb_action (resolve server_reserved r n ev ns args)).
@@ -63,33 +39,36 @@ Theorem C13_dropped_when_none : forall r n ev ns args,
 Proof. exact server_dropped_when_none. Qed.
 Print Assumptions C13_dropped_when_none.
 
-Theorem C13_client_routing_except : forall r n ev ns args,
-  skips_catchall_namespace client_reserved r ev ns = false ->
+Theorem C13_client_event_resolution : forall r n ev ns args,
+  BaseClient__get_event_handler (mk_self r n) (PStr ev) (PStr ns) (PTuple args)
+  = Ok (emb_result (resolve_event client_reserved r ev ns args)).
+Proof. exact client_event_resolution. Qed.
+Print Assumptions C13_client_event_resolution.
+
+Theorem C13_client_routing : forall r n ev ns args,
   client_trigger (mk_self r n) (PStr ev) (PStr ns) (PTuple args)
   = Ok (emb_action (resolve client_reserved r n ev ns args)).
-Proof. exact client_trigger_resolution_except. Qed.
-Print Assumptions C13_client_routing_except.
+Proof. exact client_trigger_resolution. Qed.
+Print Assumptions C13_client_routing.
 
-Theorem C13_client_function_over_class_refuted :
-  exists r n ev ns args h a c ev' a',
-    resolve_event client_reserved r ev ns args = (Some h, a) /\
-    client_trigger (mk_self r n) (PStr ev) (PStr ns) (PTuple args) = Ok (ATrigger c ev' a').
-Proof. exact client_function_over_class_refuted. Qed.
-Print Assumptions C13_client_function_over_class_refuted.
-
-Theorem C13_client_function_over_class_except : forall r n ev ns args h a,
-  skips_catchall_namespace client_reserved r ev ns = false ->
+Theorem C13_client_function_over_class : forall r n ev ns args h a,
   resolve_event client_reserved r ev ns args = (Some h, a) ->
   client_trigger (mk_self r n) (PStr ev) (PStr ns) (PTuple args) = Ok (ACall (PObj h) (PTuple a)).
-Proof. exact client_function_over_class_except. Qed.
-Print Assumptions C13_client_function_over_class_except.
+Proof. exact client_function_over_class. Qed.
+Print Assumptions C13_client_function_over_class.
 
-Theorem C13_client_dropped_when_none_except : forall r n ev ns args,
-  skips_catchall_namespace client_reserved r ev ns = false ->
-  (client_trigger (mk_self r n) (PStr ev) (PStr ns) (PTuple args) = Ok ANotHandled <->
-   (forall rl, In rl (event_rules client_reserved r ev ns args ++ namespace_rules n ns args) -> fst rl = None)).
-Proof. exact client_dropped_when_none_except. Qed.
-Print Assumptions C13_client_dropped_when_none_except.
+Theorem C13_client_dropped_when_none : forall r n ev ns args,
+  client_trigger (mk_self r n) (PStr ev) (PStr ns) (PTuple args) = Ok ANotHandled <->
+  (forall rl, In rl (event_rules client_reserved r ev ns args ++ namespace_rules n ns args) -> fst rl = None).
+Proof. exact client_dropped_when_none. Qed.
+Print Assumptions C13_client_dropped_when_none.
+
+Theorem C13_client_server_same_rules : forall r n ev ns args,
+  memb ev client_reserved = memb ev server_reserved ->
+  client_trigger (mk_self r n) (PStr ev) (PStr ns) (PTuple args)
+  = server_trigger (mk_self r n) (PStr ev) (PStr ns) (PTuple args).
+Proof. exact client_server_same_rules. Qed.
+Print Assumptions C13_client_server_same_rules.
 
 Theorem C13_checker_sound : forall c, chk_C13 c = true -> P_C13 c.
 Proof. exact chk_C13_sound. Qed.
